@@ -319,7 +319,7 @@ func dependsOnDeep(v, target ssa.Value, depth int, seen map[ssa.Value]bool) bool
 func init() {
 	binBAI := RuleDef{Name: "BIN-PAIRS", What: "BAI/tabix: BinFor and OverlappingBinsFor use, level by level, the (first bin, shift) pairs of the UCSC scheme ((8^l−1)/7, 29−3l), end−1, inclusive enumeration; TileWidth, 37450, 4680", Floor: 5, Run: ruleBinPairsBAI}
 	binCSI := RuleDef{Name: "BIN-PAIRS-CSI", What: "CSI: the level recurrences of reg2bin and reg2bins, interpreted for seven (minShift, depth) geometries (they do not depend on beg/end – checked), yield the scheme's pairs and agree with each other", Floor: 14, Run: ruleBinPairsCSI}
-	binUnplaced := RuleDef{Name: "BIN-UNPLACED", What: "sam.Record.Bin: the fixed bin 4680 exactly when both Unmapped and MateUnmapped are set, BinFor(Pos, End()) otherwise – evaluated over the flag combinations (added after fifth-round seeds C04-e and C16-e)", Floor: 1, Run: ruleBinUnplaced}
+	binUnplaced := RuleDef{Name: "BIN-UNPLACED", What: "sam.Record.Bin: the fixed bin 4680 exactly when both Unmapped and MateUnmapped are set, BinFor(Pos, End()) otherwise – evaluated over the flag combinations (added after fifth-round seeds C04-e and C16-e)", Floor: 2, Run: ruleBinUnplaced}
 	binOneWalk := RuleDef{Name: "BIN-ONE-WALK", What: "internal.OverlappingBinsFor: every returned list went through the walk over the level table (no bypassing fast path; added after fifth-round seed C16-f)", Floor: 1, Run: ruleBinOneWalk}
 	register(&PropDef{
 		ID: "C16", Title: "Coordinate arithmetic (End, Len, Bin, CIGAR lengths, bin lists) matches the spec", Level: "other",
